@@ -25,7 +25,7 @@ COMMON = os.path.join(VERIF, 'harness', 'common')
 GUARD = 'VLM_ASN1C_VERIF'
 SCRATCH_ROOT = os.environ.get('VERIF_SCRATCH', '/var/tmp')
 NCPU = int(os.environ.get('VERIF_JOBS', str(os.cpu_count() or 4)))
-MEM_LIMIT_GB = int(os.environ.get('VERIF_MEM_GB', '24'))
+MEM_LIMIT_GB = int(os.environ.get('VERIF_MEM_GB', '10'))
 
 GOTOCC_BASE = ['-D' + GUARD, '-DHAVE_CONFIG_H', "-D__builtin_nanf(x)=(0.0f/0.0f)"]
 
@@ -39,6 +39,7 @@ MODELS = {
     'time': ('time_model.c', True),
     'stdio': ('stdio_model.c', False),
     'quiet': ('quiet_model.c', False),
+    'realloc': ('realloc_model.c', False),
 }
 
 ALLOC_DEFS = ['-Dmalloc=verif_malloc', '-Dcalloc=verif_calloc', '-Drealloc=verif_realloc', '-Dfree=verif_free']
@@ -97,7 +98,7 @@ class H:
                  cbmc=(), fp=None, caps=None, objbits=12, leak=False, alloc=False, models=(),
                  timeout=None, note='', inputs='', bounds='', incdirs=(), src_defines=(),
                  unconfirmed_ok=(), functions=(), maxdeepen=None, extra_srcs=(), unwind_default=1,
-                 solver=None, nowitness=False, exclude=None, roots=None):
+                 solver=None, nowitness=False, exclude=None, roots=None, partial_deepen=False):
         self.name = name
         self.src = src                      # path relative to /verif/harness
         self.sources = list(sources)        # repo-relative C files
@@ -124,6 +125,7 @@ class H:
         self.unwind_default = unwind_default
         self.solver = solver
         self.nowitness = nowitness
+        self.partial_deepen = partial_deepen
         self.roots = roots                  # root descriptor objects for table reachability
         self.exclude = exclude              # regex: functions never offered as function-pointer targets
 
@@ -410,9 +412,14 @@ def deepen(h, gb, bounds, deadline, objbits, logf):
     while True:
         if time.time() > deadline:
             return False, 'deepening ran out of time after %d iterations' % iters
+        # --partial-loops lets paths continue past an insufficient bound, so ONE iteration reports every
+        # loop on the path that needs more unwinding (instead of one loop per iteration). Only used to find
+        # bounds; the deciding run has the standard (blocking) unwinding assertions.
         cmd = ['cbmc', gb, '--function', 'harness', '--unwind', str(h.unwind_default), '--unwinding-assertions',
-               '--no-standard-checks', '--no-assertions', '--no-malloc-may-fail', '--drop-unused-functions',
-               '--object-bits', str(objbits), '--json-ui']
+               '--no-standard-checks', '--no-assertions', '--no-malloc-may-fail',
+               '--drop-unused-functions', '--object-bits', str(objbits), '--json-ui']
+        if h.partial_deepen:
+            cmd.append('--partial-loops')
         if bounds:
             cmd += ['--unwindset', _us(bounds)]
         rc, so, se, dt = run(cmd, timeout=max(5, deadline - time.time()))
@@ -421,7 +428,7 @@ def deepen(h, gb, bounds, deadline, objbits, logf):
         props, info = parse_cbmc_json(so)
         if props is None:
             return False, info
-        failed = [p for p in props if p['status'] == 'FAILURE']
+        failed = [p for p in props if p['status'] == 'FAILURE' and unwind_key(p['property'])]
         iters += 1
         logf.write('deepen iter %d: %d failing unwinding assertions, %.1fs\n' % (iters, len(failed), dt))
         if not failed:
@@ -466,19 +473,24 @@ def run_race(cmds, timeout):
     for t in ths:
         t.start()
     win = None
+    bad = set()
     while time.time() - t0 < timeout:
         for i, p in enumerate(procs):
-            if p.poll() is not None and p.returncode in (0, 10):
-                win = i
-                break
-        if win is not None or all(p.poll() is not None for p in procs):
+            if i in bad:
+                continue
+            if p.poll() is not None:
+                ths[i].join(10)
+                so_i = (outs[i] or (b'', b''))[0]
+                # a finisher only wins with a usable verdict (an external solver that died yields ERROR statuses)
+                if p.returncode in (0, 10) and b'"status": "ERROR"' not in so_i and b'"result"' in so_i:
+                    win = i
+                    break
+                bad.add(i)
+        if win is not None or len(bad) == len(procs):
             break
         time.sleep(0.2)
-    if win is None:
-        for i, p in enumerate(procs):
-            if p.poll() is not None:
-                win = i
-                break
+    if win is None and bad:
+        win = sorted(bad)[0]
     for i, p in enumerate(procs):
         if p.poll() is None:
             try:
@@ -673,7 +685,8 @@ class Engine:
         p = os.path.join(VERIF, 'known_findings.json')
         if not os.path.exists(p):
             return []
-        return [k for k in json.load(open(p)).get('findings', []) if k.get('property') == self.prop_id]
+        return [k for k in json.load(open(p)).get('findings', [])
+                if self.prop_id in k.get('properties', [k.get('property')])]
 
     def _load_hints(self):
         # pool: max bound per loop over every known harness (seed for harnesses without own hints;
@@ -792,11 +805,13 @@ class Engine:
                 unw = [p for p in props if p['status'] == 'FAILURE' and unwind_key(p['property'])]
                 other = [p for p in props if p['status'] == 'FAILURE' and not unwind_key(p['property'])
                          and p.get('description') != 'VERIF_WITNESS']
-                if unw and not other and rounds < 6:
-                    # bounds too small (hint stale or code changed): deepen further
+                if unw and not other and rounds < 8:
+                    # bounds too small (hint stale, code changed, or partial-loop deepening under-estimated):
+                    # raise exactly the loops the deciding run reports, then look for further ones cheaply
                     for p in unw:
                         k = unwind_key(p['property'])
-                        bounds[k] = bounds.get(k, h.unwind_default) + 1
+                        cur = bounds.get(k, h.unwind_default)
+                        bounds[k] = min(cur * 2 if cur < 8 else cur + max(2, cur // 2), max(cap_for(h, k), cur + 1))
                     ok, dinfo = deepen(h, gb, bounds, time.time() + dcap, objbits, logf)
                     if not ok:
                         res.status = 'inconclusive'
@@ -892,7 +907,7 @@ class Engine:
             r.status = 'inconclusive'
             r.msgs.append(str(e))
             return [r]
-        kfs = [k for k in self.kf if k.get('harness') == h.name and k.get('status', 'open') == 'open']
+        kfs = [k for k in self.kf if re.fullmatch(k.get('harness_re', k.get('harness', '')), h.name)]
         defs = []
         if kfs:
             defs = ['-DVERIF_KF_EXCLUDE=(' + ')||('.join(k['predicate'] for k in kfs) + ')']
